@@ -410,6 +410,7 @@ pub fn property(tier: Tier) -> Property {
     let mut stages: Vec<Box<dyn DynStage>> = Vec::new();
     for (name, lang, q, t) in [("min-core", LangId::Core, 3000u32, 60_000u32), ("min-lambda", LangId::Lambda, 1000, 20_000), ("min-arith", LangId::Arith, 800, 16_000), ("min-fp", LangId::Fp, 800, 16_000)] {
         let mut cfg = MixedCfg::for_lang(lang);
+        cfg.hist.namings = crate::tm::Naming::diverse();
         cfg.max_ops = tier.pick(8, 12);
         stages.push(Box::new(Stage {
             name,
